@@ -22,7 +22,7 @@ FLOORS = {'quick': {'view-ctrlpts': 800, 'view-weights': 800, 'view-ctrlptsw': 8
                     'convert': 100, 'grid-weight': 150},
           'thorough': {'view-ctrlpts': 8000, 'view-ctrlptsw': 8000, 'convert': 1000}}
 MANDATORY_TAGS = ['pdim1', 'pdim2', 'pdim3', 'op:restructure', 'op:ctrlpts', 'op:weights', 'op:ctrlptsw', 'op:set_ctrlpts', 'op:scaleW',
-                  'read-then-write', 'grid', 'convert', 'files:non-square', 'write-back-kept-weights', 'write-back-kept-ctrlpts', 'convert:unnormalized', 'grid:bumps-after-read', 'resize:ctrlpts-other-size', 'resize:weights-wrong-length']
+                  'read-then-write', 'grid', 'convert', 'files:non-square', 'write-back-kept-weights', 'write-back-kept-ctrlpts', 'convert:unnormalized', 'grid:bumps-after-read', 'resize:ctrlpts-other-size', 'resize:weights-wrong-length', 'read-modify-in-place-write:weights']
 TECHNIQUE = ("runtime monitoring: shadow-model oracle (P, W) compared with all three views after every step of seeded "
              "setter/getter histories; exact-product oracles on the helper conversions; reference-model evaluation for "
              "conversions and weight scaling")
@@ -209,6 +209,12 @@ def check_history(case, ctx):
             else:
                 W = list(snap)
             ok = len(obj) == len(snap)
+            if ok and op == 'weights' and rng.random() < 0.6:
+                # read - modify in place - write: w = shape.weights; w[k] = x; shape.weights = w
+                kk = rng.randrange(len(obj))
+                obj[kk] = rng.uniform(0.2, 5)
+                W = list(obj)
+                ctx.tag('read-modify-in-place-write:weights')
             if not ctx.check(ok, 'kept-view-emptied', 'the %s list handed out earlier now has %d entries (had %d): a later edit emptied the '
                              "caller's list, so writing it back cannot round-trip" % (op, len(obj), len(snap)), what='kept-view'):
                 return
@@ -342,9 +348,26 @@ def check_convert(case, ctx):
                      'shape returned a shape with weights %r... (input %r...): it evaluates differently at %r' % (list(r3.weights)[:3], Wr[:3], q),
                      what='convert')
     # a genuinely rational shape cannot be turned into a non-rational one: whatever nurbs_to_bspline returns must evaluate identically
-    for wcls in ('below-one', 'above-one', 'mixed'):
+    for wcls in ('below-one', 'above-one', 'mixed', 'near-one-coarse-precision'):
         r2 = convert.bspline_to_nurbs(o)
         n = len(sd['ctrlpts'])
+        if wcls == 'near-one-coarse-precision':
+            # weights within 1e-2 .. 1e-5 of 1 on a shape created with a coarse precision=: still a rational shape (the weights move points
+            # by up to scale * 1e-2), whatever number of decimals its knots are printed with
+            if sd['normalize_kv']:
+                continue
+            r2 = convert.bspline_to_nurbs(G.build(dict(sd, precision=rng.choice([1, 2, 3]))))
+            W = [1.0 + rng.choice([-1, 1]) * 10.0 ** -rng.uniform(2, 4) for _ in range(n)]
+            r2.weights = list(W)
+            S2 = G.defn_of(r2)
+            with so.quiet():
+                back = convert.nurbs_to_bspline(r2)
+            ctx.tag('convert:near-one-weights-coarse-precision')
+            for q in prs[:5]:
+                ctx.near(G.evaluate_single(back, q), S2.point(q), 1e-9 * so.scale_of_defn(S2), 'convert/n2b-dropped-weights',
+                         'nurbs_to_bspline of a precision=%d shape with weights within 1e-2 of 1 returns a shape that evaluates differently' % r2._precision,
+                         what='convert')
+            continue
         if wcls == 'below-one':
             W = [rng.choice([1.0, 1.0, 0.5, 0.7071067811865476, rng.uniform(0.2, 0.99)]) for _ in range(n)]
             W[rng.randrange(n)] = 0.6
